@@ -60,6 +60,9 @@ def calls(rng, thorough):
             out.append((" W|000A", "set_zone_config", (CTL, z), {"min_temp": a, "max_temp": b, "local_override": rng.random() < 0.5, "openwindow_function": rng.random() < 0.5,
                                                              "multiroom_mode": rng.random() < 0.5}, {"zone_idx": f"{z:02X}", "min_temp": a, "max_temp": b}, True))
         out.append((" W|0004", "set_zone_name", (CTL, z, rng.choice(["Kitchen", "A", "Living Room 1234567", "x" * 20])), {}, {"zone_idx": f"{z:02X}"}, True))
+        # names at and past the 20-byte wire field: cut to the field (what is decoded is the first 20 characters), never a longer frame
+        for name in ("Master Bedroom and En", "y" * 21, "Z" * rng.randrange(22, 49), "a name of exactly 20"):
+            out.append((" W|0004", "set_zone_name", (CTL, z, name), {}, {"zone_idx": f"{z:02X}", "name": name[:20]}, True))
         out.append((" W|1030", "set_mix_valve_params", (CTL, z), {"max_flow_setpoint": rng.randrange(0, 100), "min_flow_setpoint": rng.randrange(0, 51),
                                                                    "valve_run_time": rng.randrange(0, 241), "pump_run_time": rng.randrange(0, 100)}, {"zone_idx": f"{z:02X}"}, True))
         d = _dt.datetime(rng.choice([2024, 2025, 2026]), rng.randrange(1, 13), rng.randrange(1, 29), rng.randrange(0, 24), rng.randrange(0, 60))
